@@ -154,44 +154,70 @@ func zzMkThrottle() *zzTH {
 }
 
 // ZZ_T_step: one request from an arbitrary invariant state.
+type zzTGhost struct {
+	a, l, T0 int64
+	rec      bool
+	client   bool
+	w        int64
+	bgOld    *cptvframe.Frame
+	thOld    uint16
+	r0       int64 // remainder (ns within tick) of the last clock read
+}
+
 func ZZ_T_step() {
 	h := zzMkThrottle()
+	tr, base := h.tr, h.base
+	cap, q, minR := h.cap, h.q, h.minR
+	g := &zzTGhost{}
+	g.a, g.l, g.T0 = zzI64("a", 0), zzI64("l", 0), zzI64("T0", 0)
+	g.rec, g.client = zzBool("rec", 0), zzBool("client", 0)
+	g.w = zzI64("w", 0)
+	zzAssume(0 <= g.a && g.a <= cap)
+	zzAssume(0 <= g.l && g.l <= g.T0 && g.T0 < 1<<20)
+	zzAssume(0 <= g.w && g.w < 1<<40)
+	if g.rec {
+		zzAssume(g.client)
+		zzAssume(zzPsi(g.a, g.l, g.T0, cap, q)+g.w >= minR)
+	}
+	zzSetFieldInt(tr.bucket, "availableTokens", g.a)
+	zzSetFieldInt(tr.bucket, "latestTick", g.l)
+	tr.recording = g.rec
+	base.open = g.rec
+	base.sinceStart = g.w
+	g.bgOld = &cptvframe.Frame{}
+	g.thOld = zzU16("thOld", 0)
+	tr.backgroundFrame, tr.tempThresh = g.bgOld, g.thOld
+	zzReach("pre-state")
+	steps := zzParam("STEPS")
+	for t := 0; t < steps; t++ {
+		zzTEvent(h, g, t)
+	}
+}
+
+// zzTEvent: one client request, checked against the ghost g, which is then
+// advanced to the (real) successor state.
+func zzTEvent(h *zzTH, g *zzTGhost, t int) {
 	tr, base, lis, clock := h.tr, h.base, h.lis, h.clock
 	cap, fi, q, minR := h.cap, h.fi, h.q, h.minR
-
-	a, l, T0 := zzI64("a", 0), zzI64("l", 0), zzI64("T0", 0)
-	rec, client := zzBool("rec", 0), zzBool("client", 0)
-	w := zzI64("w", 0)
-	zzAssume(0 <= a && a <= cap)
-	zzAssume(0 <= l && l <= T0 && T0 < 1<<20)
-	zzAssume(0 <= w && w < 1<<40)
-	if rec {
-		zzAssume(client)
-		zzAssume(zzPsi(a, l, T0, cap, q)+w >= minR)
-	}
-	zzSetFieldInt(tr.bucket, "availableTokens", a)
-	zzSetFieldInt(tr.bucket, "latestTick", l)
-	tr.recording = rec
-	base.open = rec
-	base.sinceStart = w
-	bgOld := &cptvframe.Frame{}
-	thOld := zzU16("thOld", 0)
-	tr.backgroundFrame, tr.tempThresh = bgOld, thOld
+	a, l, T0, rec, client, w, bgOld, thOld := g.a, g.l, g.T0, g.rec, g.client, g.w, g.bgOld, g.thOld
+	_ = w
+	base.starts, base.startOKs, base.stops, base.writes = 0, 0, 0, 0
+	lis.count = 0
 
 	// the (at most two) clock reads of this request: arbitrary later instants
-	k1, r1, k2, r2 := zzI64("k", 1), zzI64("r", 1), zzI64("k", 2), zzI64("r", 2)
+	k1, r1, k2, r2 := zzI64("k", 2*t+1), zzI64("r", 2*t+1), zzI64("k", 2*t+2), zzI64("r", 2*t+2)
 	zzAssume(T0 <= k1 && k1 <= k2 && k2 < 1<<20)
 	zzAssume(0 <= r1 && r1 < fi && 0 <= r2 && r2 < fi)
 	zzAssume(k1 < k2 || r1 <= r2)
+	zzAssume(T0 < k1 || g.r0 <= r1)
 	clock.ns[0], clock.ns[1] = k1*fi+r1, k2*fi+r2
 	clock.reads = 0
-	base.failStart = zzBool("failStart", 0)
-	zzReach("pre-state")
+	base.failStart = zzBool("failStart", t)
 
-	op := zzInt("op", 0)
+	op := zzInt("op", t)
 	zzAssume(0 <= op && op < 3)
 	bg := &cptvframe.Frame{}
-	th := zzU16("th", 0)
+	th := zzU16("th", t)
 	frame := &cptvframe.Frame{}
 	psi0 := zzPsi(a, l, T0, cap, q)
 	var err error
@@ -217,7 +243,7 @@ func ZZ_T_step() {
 			zzAssert(lis.count == 1, "C06: exactly one throttled event per suppressed start")
 		}
 		if err == nil {
-			zzAssert(tr.backgroundFrame == bg && tr.tempThresh == th, "C15: background and threshold of the trigger are remembered for restarts")
+			zzAssert(tr.backgroundFrame == bg && tr.tempThresh == th, "C06/C15: background and threshold of the trigger are remembered for restarts")
 		}
 		zzAssert(base.writes == 0 && base.stops == 0, "C06: start forwards no frame and no stop")
 	case 1:
@@ -294,6 +320,25 @@ func ZZ_T_step() {
 	zzAssert(tr.recording == base.open, "Inv: recording flag mirrors the wrapped recorder")
 	if tr.recording {
 		zzAssert(psi2+base.sinceStart >= minR, "Inv: an open file can always reach the minimum length")
+	}
+	// successor ghost: the real post-state
+	g.a, g.l, g.T0 = a2, l2, Tl
+	g.r0 = 0
+	if clock.reads == 1 {
+		g.r0 = r1
+	}
+	if clock.reads >= 2 {
+		g.r0 = r2
+	}
+	g.rec, g.w = tr.recording, base.sinceStart
+	g.bgOld, g.thOld = tr.backgroundFrame, tr.tempThresh
+	switch op {
+	case 0:
+		if err == nil {
+			g.client = true
+		}
+	case 2:
+		g.client = false
 	}
 }
 
